@@ -593,6 +593,33 @@ where
 		});
 		Box::new(Gate { id })
 	})));
+	// Preemption points (hook H8): only in runs that carry the run parameter `preempt`; everywhere else the points
+	// are transparent (no draw, no yield), so tapes recorded without the parameter keep their meaning.
+	let preempt_on = cfg.params.get("preempt").copied().unwrap_or(0) != 0;
+	verif::set_preempt(if preempt_on {
+		Some(Box::new(|site| {
+			with(|s| {
+				if s.finished {
+					return (0, Duration::ZERO);
+				}
+				let (y, ms) = match s.draw(8) {
+					0..=2 => (0, 0),
+					3 => (1, 0),
+					4 => (3, 0),
+					5 => (12, 0),
+					6 => (0, 1),
+					_ => (2, 5),
+				};
+				if y > 0 || ms > 0 {
+					*s.probes.entry("fault.preempted").or_insert(0) += 1;
+					s.event("preempt", &format!("{site} yields={y} pause_ms={ms}"));
+				}
+				(y, Duration::from_millis(ms))
+			})
+		}))
+	} else {
+		None
+	});
 	let rt = tokio::runtime::Builder::new_current_thread()
 		.enable_time()
 		.start_paused(true)
@@ -608,6 +635,7 @@ where
 	// Dropping the runtime drops every task (and with them clients, servers, streams).
 	drop(rt);
 	verif::set_gate_factory(None);
+	verif::set_preempt(None);
 	verif::clear_client_tables();
 	let sim = SIM.with(|s| s.borrow_mut().take()).unwrap();
 	RunOut {
